@@ -97,6 +97,13 @@ def wrap(data, sw, kind):
         return memoryview(data)
     import array
 
+    if kind in ("array_B", "array_b"):
+        # raw audio held in an array of (un)signed bytes, whatever the sample width
+        return array.array(kind[-1], data)
+    if kind == "numpy_uint8":
+        import numpy as np
+
+        return np.frombuffer(data, dtype=np.uint8)
     code = {1: "b", 2: "h", 4: "i"}[sw]
     if kind == "array":
         return array.array(code, data)
@@ -111,9 +118,22 @@ def wrap(data, sw, kind):
 
 def verdict(thr, sw, ch, uc, data, case):
     """-> ('value', bool) or ('ValueError', exc)"""
+    import contextlib
+    import warnings
+
+    import numpy as np
+
+    strict = contextlib.ExitStack()
+    if case.get("strict_numeric"):
+        # a program that turns numeric warnings into errors (np.seterr(all="raise"), -W error): the verdict is the same
+        strict.enter_context(np.errstate(all="raise"))
+        cm = warnings.catch_warnings()
+        strict.enter_context(cm)
+        warnings.simplefilter("error")
     try:
-        v = AudioEnergyValidator(thr, sw, ch, use_channel=uc)
-        r = v.is_valid(wrap(data, sw, case.get("container")))
+        with strict:
+            v = AudioEnergyValidator(thr, sw, ch, use_channel=uc)
+            r = v.is_valid(wrap(data, sw, case.get("container")))
     except ValueError as exc:
         return "ValueError", exc
     try:
@@ -130,6 +150,44 @@ def resolve_thr(spec, E):
 
 
 CRC_PAIR = ("03000400feff0400000001000000fdff", "284e294e244e284e284e204e204e983a")  # equal length, equal crc32
+
+
+def check_threads(case, rec):
+    """Two independent validators with the same parameters, each used by its own thread on its own
+    windows: every verdict must be what a single thread gets."""
+    import threading
+
+    sw, ch, uc = case["sw"], case["ch"], case["uc"]
+    quiet = build({"sw": sw, "ch": ch, "vals": case["quiet"]})
+    loud = build({"sw": sw, "ch": ch, "vals": case["loud"]})
+    thr = case["thr"]
+    want = {id(quiet): bool(AudioEnergyValidator(thr, sw, ch, use_channel=uc).is_valid(quiet)),
+            id(loud): bool(AudioEnergyValidator(thr, sw, ch, use_channel=uc).is_valid(loud))}
+    if want[id(quiet)] or not want[id(loud)]:
+        raise HarnessError("thread member mis-built")
+    wrong = []
+
+    def work(win):
+        v = AudioEnergyValidator(thr, sw, ch, use_channel=uc)
+        for _ in range(case["n"]):
+            if bool(v.is_valid(win)) != want[id(win)]:
+                wrong.append(win is loud)
+                return
+
+    old = sys.getswitchinterval()
+    sys.setswitchinterval(1e-6)
+    try:
+        ts = [threading.Thread(target=work, args=(w,)) for w in (quiet, loud, quiet, loud)]
+        for t in ts:
+            t.start()
+        for t in ts:
+            t.join(60)
+    finally:
+        sys.setswitchinterval(old)
+    rec.note(case, True, {"validators_in_parallel_threads"}, out="ok")
+    if wrong:
+        raise Violation("a validator used in one thread gave another verdict while a second validator was used in another thread "
+                        f"(window {'loud' if wrong[0] else 'quiet'}, use_channel={uc!r})", case)
 
 
 def check_sequence(case, rec):
@@ -167,6 +225,8 @@ def check_sequence(case, rec):
 
 
 def check_case(case, rec):
+    if "threads" in case:
+        return check_threads(case, rec)
     if "seq" in case:
         return check_sequence(case, rec)
     sw, ch, uc = case["sw"], case["ch"], case.get("uc")
@@ -262,6 +322,15 @@ def explicit_cases():
         {"sw": 4, "ch": 1, "vals": [100000, -5, 7, 12], "uc": None, "thr": ["rel", -0.5], "thr2": ["rel", 0.5], "container": "memoryview_cast"},
         {"sw": 2, "ch": 2, "vals": [300, -2, -300, 5] * 512, "uc": None, "thr": ["rel", -0.5], "thr2": ["rel", 0.5], "magic_len": 1024},
         {"sw": 1, "ch": 1, "vals": [100, -100, 7] * 85 + [100, -100], "uc": None, "thr": ["abs", 30.0], "thr2": ["rel", 1e-6], "magic_len": 257},
+        {"threads": True, "sw": 2, "ch": 2, "uc": "mix", "thr": 50.0, "n": 3000, "quiet": [3, -2, 1, 4] * 40, "loud": [20000, 19000, -20000, -21000] * 40},
+        {"threads": True, "sw": 2, "ch": 3, "uc": "avg", "thr": 40.0, "n": 3000, "quiet": [1, 1, -1] * 50, "loud": [9000, 9500, 8000] * 50},
+        {"threads": True, "sw": 1, "ch": 2, "uc": None, "thr": 20.0, "n": 3000, "quiet": [1, 0] * 64, "loud": [100, -90] * 64},
+        {"sw": 2, "ch": 1, "vals": [1000, -1000, 900, 5, -20, 30], "uc": None, "thr": ["rel", -0.5], "thr2": ["rel", 0.5], "container": "array_B"},
+        {"sw": 4, "ch": 2, "vals": [100000, -5, 7, 12], "uc": "mix", "thr": ["rel", -0.5], "thr2": ["rel", 0.5], "container": "array_b"},
+        {"sw": 2, "ch": 2, "vals": [300, -2, -300, 5], "uc": 1, "thr": ["rel", -0.5], "thr2": ["rel", 0.5], "container": "numpy_uint8"},
+        {"sw": 2, "ch": 2, "vals": [0, 0, 0, 0], "uc": "mix", "thr": ["abs", -200.0], "thr2": ["abs", -199.0], "strict_numeric": True},
+        {"sw": 2, "ch": 2, "vals": [500, -500, -500, 500], "uc": "mix", "thr": ["abs", -200.0], "thr2": ["abs", 0.0], "strict_numeric": True},
+        {"sw": 1, "ch": 3, "vals": [0, 5, 0, 0, -7, 0], "uc": 0, "thr": ["abs", -200.0], "thr2": ["abs", 10.0], "strict_numeric": True},
     ] + [{"sw": 2, "ch": 2, "vals": [100, -100, 7, 9], "uc": h, "thr": ["abs", 30.0], "thr2": ["rel", 1.0]} for h in HUGE_INDEXES] + [
     ]
     return out
@@ -320,7 +389,9 @@ def strategy(draw, maxn):
     else:
         vals = draw(st.lists(sample_value(sw), min_size=n * ch, max_size=n * ch))
     return {"sw": sw, "ch": ch, "vals": vals, "uc": uc, "thr": draw(thr_spec()), "thr2": draw(thr_spec()),
-            "container": draw(st.sampled_from(["bytes", "bytes", "bytearray", "memoryview", "array", "memoryview_cast", "numpy"]))}
+            "container": draw(st.sampled_from(["bytes", "bytes", "bytearray", "memoryview", "array", "memoryview_cast", "numpy",
+                                                "array_B", "array_b", "numpy_uint8"])),
+            "strict_numeric": draw(st.booleans())}
 
 
 def jobs(tier, seed):
